@@ -582,6 +582,32 @@ func c18child(args []string) {
 			c2.Close()
 		}
 		atomic.StoreInt32(&umode, 0)
+		// many associations created together, hence expiring together, while other clients keep
+		// the table busy with look-ups
+		note("udp/joint-expiry")
+		for round := 0; round < 3; round++ {
+			var socks []net.Conn
+			for i := 0; i < 150; i++ {
+				c2, err := net.Dial("udp", saddr)
+				if err != nil {
+					continue
+				}
+				socks = append(socks, c2)
+				c2.Write(sealDgram(keys[i%len(keys)], rng.Bytes(keys[i%len(keys)].SaltSize()), append([]byte{1, 127, 0, 0, 1, byte(uechoPort >> 8), byte(uechoPort)}, 'j')))
+			}
+			end := time.Now().Add(1300 * time.Millisecond)
+			for time.Now().Before(end) {
+				if len(socks) > 0 {
+					k := keys[0]
+					socks[0].Write(sealDgram(k, rng.Bytes(k.SaltSize()), append([]byte{1, 127, 0, 0, 1, byte(uechoPort >> 8), byte(uechoPort)}, 'k')))
+				}
+				time.Sleep(2 * time.Millisecond)
+			}
+			for _, c2 := range socks {
+				c2.Close()
+			}
+		}
+		time.Sleep(1200 * time.Millisecond)
 		uc.Close()
 		time.Sleep(50 * time.Millisecond)
 		checkCanaries("after hostile replies")
